@@ -5,6 +5,9 @@ use tonic::Status;
 
 pub type RawMsg = Vec<u8>;
 
+/// messages starting with these bytes are refused by `RawCodec`'s encoder (after it has written something)
+pub const ENCODER_REFUSES: &[u8] = b"\xff\xfeREFUSE";
+
 /// Codec whose serialisation is the identity on byte strings, with explicit buffer settings.
 #[derive(Clone, Copy, Debug, Default)]
 pub struct RawCodec {
@@ -42,6 +45,19 @@ impl Encoder for RawEnc {
     type Item = RawMsg;
     type Error = Status;
     fn encode(&mut self, item: RawMsg, dst: &mut EncodeBuf<'_>) -> Result<(), Status> {
+        // a codec may refuse a message (validation); whatever it had written by then must not go out
+        if item.starts_with(ENCODER_REFUSES) {
+            dst.put_slice(b"partial output of a failing encoder");
+            return Err(Status::data_loss("encoder refuses this message"));
+        }
+        if item.len() % 2 == 0 {
+            // serialise through io::Write without reserving first (what a serde_json codec does): the buffer grows
+            use std::io::Write;
+            let k = item.len() / 2;
+            let mut w = dst.writer();
+            w.write_all(&item[..k]).and_then(|_| w.write_all(&item[k..])).map_err(|e| Status::internal(format!("write: {e}")))?;
+            return Ok(());
+        }
         dst.reserve(item.len());
         // hand the bytes over as a non-contiguous Buf (a codec may serialise into a rope): every segment counts
         let k = item.len() / 3;
